@@ -9,10 +9,10 @@ Local Open Scope Z_scope.
 
 (** what the property says about one op: supply change, the three recipients, module balance afterwards,
     and the period counter afterwards *)
-Record view := { v_minted : Z; v_staking : Z; v_community : Z; v_strategic : Z; v_module : Z; v_period : Z }.
+Record view := { v_panic : bool; v_minted : Z; v_staking : Z; v_community : Z; v_strategic : Z; v_module : Z; v_period : Z }.
 
 Definition view_of (o : out) : view :=
-  {| v_minted := o_minted o; v_staking := o_staking o; v_community := o_community o;
+  {| v_panic := o_panic o; v_minted := o_minted o; v_staking := o_staking o; v_community := o_community o;
      v_strategic := o_strategic o; v_module := o_module o; v_period := o_period o |}.
 
 (** schedule state: the parameters and [c] = number of day epochs that ended while inflation was enabled,
@@ -28,7 +28,7 @@ Definition sched_mint (p : params) (c : Z) : Z :=
 Definition sched_period (p : params) (c : Z) : Z := Z.min (c / p_epp p) (p_max p).
 
 Definition quiet_view (q : sst) : view :=
-  {| v_minted := 0; v_staking := 0; v_community := 0; v_strategic := 0; v_module := 0;
+  {| v_panic := false; v_minted := 0; v_staking := 0; v_community := 0; v_strategic := 0; v_module := 0;
      v_period := sched_period (q_params q) (q_c q) |}.
 
 Definition spec_step (q : sst) (o : op) : sst * view :=
@@ -40,7 +40,7 @@ Definition spec_step (q : sst) (o : op) : sst * view :=
         let stk := share m (p_staking p) in
         let cm := share m (p_community p) in
         let q' := {| q_params := p; q_c := q_c q + 1 |} in
-        (q', {| v_minted := m; v_staking := stk; v_community := cm; v_strategic := m - stk - cm;
+        (q', {| v_panic := false; v_minted := m; v_staking := stk; v_community := cm; v_strategic := m - stk - cm;
                 v_module := 0; v_period := sched_period p (q_c q') |})
       else (q, quiet_view q)                (* disabled: nothing minted, the schedule does not advance *)
   | EpochEnd false _ => (q, quiet_view q)   (* other identifiers *)
@@ -80,6 +80,10 @@ Definition dist_ok (p : params) : Prop :=
 
 (** the polynomial is positive below MaxPeriod *)
 Definition poly_pos (p : params) : Prop := forall per, 0 <= per < p_max p -> 0 < poly_provision p per.
+(** … and yields at least one unibi per epoch *)
+Definition poly_unit (p : params) : Prop := forall per, 0 <= per < p_max p -> PREC <= poly_provision p per.
+(** what the schedule needs of the polynomial, depending on whether a provision below one unibi panics *)
+Definition poly_ok (zp : bool) (p : params) : Prop := if zp then poly_unit p else poly_pos p.
 
 Definition two62 : Z := 4611686018427387904.
 
@@ -96,22 +100,22 @@ Definition next_params (p : params) (o : op) : params :=
 (** histories the property quantifies over: day epochs end with consecutive numbers starting at [e];
     EpochsPerPeriod = E and MaxPeriod = M throughout; whenever an enabled day epoch ends the polynomial is
     positive below MaxPeriod and the proportions are valid; no stray coins in the module account *)
-Fixpoint hist_ok (E M : Z) (p : params) (e : Z) (ops : list op) : Prop :=
+Fixpoint hist_ok (zp : bool) (E M : Z) (p : params) (e : Z) (ops : list op) : Prop :=
   match ops with
   | [] => True
   | o :: r =>
       match o with
       | EpochEnd true e' =>
-          e' = e /\ 0 <= e < two62 /\ (p_enabled p = true -> poly_pos p /\ dist_ok p) /\ hist_ok E M p (e + 1) r
+          e' = e /\ 0 <= e < two62 /\ (p_enabled p = true -> poly_ok zp p /\ dist_ok p) /\ hist_ok zp E M p (e + 1) r
       | Fund _ => False
-      | _ => p_epp (next_params p o) = E /\ p_max (next_params p o) = M /\ hist_ok E M (next_params p o) e r
+      | _ => p_epp (next_params p o) = E /\ p_max (next_params p o) = M /\ hist_ok zp E M (next_params p o) e r
       end
   end.
 
 (* ---------------------------------------------------------------- boolean checker *)
 
 Definition view_eqb (a b : view) : bool :=
-  (v_minted a =? v_minted b) && (v_staking a =? v_staking b) && (v_community a =? v_community b) &&
+  Bool.eqb (v_panic a) (v_panic b) && (v_minted a =? v_minted b) && (v_staking a =? v_staking b) && (v_community a =? v_community b) &&
   (v_strategic a =? v_strategic b) && (v_module a =? v_module b) && (v_period a =? v_period b).
 
 Fixpoint views_eqb (a b : list view) : bool :=
@@ -128,6 +132,7 @@ Lemma view_eqb_eq a b : view_eqb a b = true -> a = b.
 Proof.
   unfold view_eqb. intro H. repeat (apply andb_true_iff in H; destruct H as [H ?]).
   repeat match goal with X : (_ =? _) = true |- _ => apply Z.eqb_eq in X end.
+  apply eqb_prop in H.
   destruct a, b; simpl in *; subst; reflexivity.
 Qed.
 
